@@ -25,6 +25,17 @@ CHECKS = {
     note=('Trusted: Coq kernel, extraction (ExtrOcamlBasic), OCaml driver, Python harness incl. state construction on the real QvmCpu. Modelled, not verified: qvm/cpu.py, cell.py, machine.py. '
           'Not modelled: OS signal delivery (the flag is set directly), float ** with non-integer/large exponents (excluded, counted). The unguarded totality statement is false on the unchanged tree: see KNOWN_FINDINGS.'),
     technique='Rocq proof over a hand-written executable machine model + differential correspondence (single-step and whole-run) against the implementation'),
+ 'C09': dict(
+    category='proof',
+    text=('Rocq theorems over executable models of the assembler, section writer/reader, machine decoder, disassembler and listing: decode(encode) = id for every instruction '
+          '(floats on bit patterns), for code sections and for the module sections under explicit field widths; disassembly of assembled items = listing after label/variable/device/literal '
+          'resolution; soundness of the target/frame checker that is run (extracted) on every compiled module; the instruction table is REGENERATED from qvm/instrs.py on every run '
+          '(tools/gen_tables.py -> coq/Gen/Instrs.v) with unique-opcode, unique-mnemonic and decoder-agreement obligations by vm_compute; all tied to the real bytes(code), QModule.parse, '
+          'disassemble(), str(code), assembled and get_instruction_at on corpus + feature programs x 6 configurations and synthetic modules at the width limits.'),
+    design_ref='DESIGN.md 5/C09',
+    note=('Trusted: Coq kernel (coqchk: no axioms), extraction, gen_tables.py translator, OCaml driver, Python harness. Modelled, not verified: QvmCode.__bytes__/assembled/__str__ (code part), qvm/module.py, get_instruction_at. '
+          'Variable indices are taken from the real memlayout as a certificate; frame exactness is harness-checked per module; the debug section is outside the model; guarded by D30 field widths.'),
+    technique='Rocq proof over generated + hand-written Gallina models; finite table obligations by vm_compute; translation validation of every module; differential correspondence'),
 }
 
 ALL = ['C%02d' % i for i in range(1, 21)]
